@@ -18,6 +18,8 @@ from . import formats, readcamp as R, scripts as S, abscheck
 LE, BE = 0x10000000, 0x20000000
 KF_NARROW = "KF-C18-DOUBLE-NARROW"
 KF_STAGING = "KF-C18-STAGING-MISALIGN"
+KF_TINY = "KF-C18-TINY-FLUSH"
+KF_CALC_RW = "KF-C18-CALC-RDWR-BLOCK"
 TINY = Fraction(1e-30)       # the double constant of src/float32.c:316/351, exactly
 TIMESTAMP = 1000000000
 
@@ -623,7 +625,11 @@ def compare_model(job, obs, mline):
         probs.append("no PEAK chunk in the file; model chunk=%s" % kv["chunk"])
     elif obs["chunk"].hex() != kv["chunk"]:
         probs.append("PEAK chunk bytes: implementation %s model %s" % (obs["chunk"].hex(), kv["chunk"]))
+    mp_w = mp
+    # after re-open the values come from the chunk, where float32_le/be_write left 0 for |x| < 1e-30 (Sf.Peak.wrF32)
+    mp_r = [((0 if abs(b2f64(v)) < 1e-30 else v), p) for v, p in mp]
     for side in "wr":
+        mp = mp_w if side == "w" else mp_r
         g = obs.get(side + "1045")
         if g and g[2] != [v for v, p in mp]:
             probs.append("%s handle SFC_GET_MAX_ALL_CHANNELS: implementation [%s] model [%s]" % ("write" if side == "w" else "read", ",".join(map(hx64, g[2])), ",".join(hx64(v) for v, p in mp)))
@@ -631,6 +637,7 @@ def compare_model(job, obs, mline):
         msig = max([v for v, p in mp], key=b2f64) if mp else 0
         if g and g[2] != [msig]:
             probs.append("%s handle SFC_GET_SIGNAL_MAX: implementation %s model %s" % ("write" if side == "w" else "read", ",".join(map(hx64, g[2])), hx64(msig)))
+    mp = mp_w
     if "poss" in obs and obs["poss"] != [p for v, p in mp]:
         probs.append("PEAK positions: implementation %s model %s" % (obs["poss"], [p for v, p in mp]))
     return probs
@@ -696,8 +703,8 @@ def peak_campaign(ctx, quick=True, njobs=None, model=True):
         soft = [p for p in probs if p[0] == "peak"]
         tinyp = [p for p in probs if p[0] == "peak-tiny"]
         if tinyp:
-            # not one of the two known classes: reported as a violation candidate of its own (cat "peak-tiny")
-            findings.append(Finding("truth", job.name, "maximum below 1e-30 stored as 0 (float32_le_write/float32_be_write return early): " + "; ".join(t for _, t in tinyp[:4]), script, job=job, cat="peak-tiny"))
+            # class KF-C18-TINY-FLUSH: every mismatching channel has 0 < max < 1e-30, chunk / re-open value 0, write handle correct
+            findings.append(Finding("truth", job.name, "maximum below 1e-30 stored as 0 (float32_le_write/float32_be_write return early): " + "; ".join(t for _, t in tinyp[:4]), script, kf=KF_TINY, job=job, cat="peak-tiny"))
             stats["truth-mismatch:peak-tiny"] += 1
         if hard:
             findings.append(Finding("truth", job.name, "; ".join(t for _, t in hard[:4]), script, job=job, cat=hard[0][0]))
@@ -742,6 +749,11 @@ def peak_campaign(ctx, quick=True, njobs=None, model=True):
 # ---------------------------------------------------------------------------------------------------
 
 CALC_CMDS = ["1040", "1041", "1042", "1043"]
+
+
+def rw_block(f):
+    """formats whose codec seek refuses the mode-less rewind of the CALC commands on an SFM_RDWR handle"""
+    return (f.major == 0x05 and f.codec == 0x03) or f.major == 0x11
 CALC_NORM = {"1040": 0, "1041": 1, "1042": 0, "1043": 1}
 PAD = 4200       # frames of slack in the reference read (block codecs pad the last block; ALAC: 4096)
 
@@ -954,7 +966,8 @@ def calc_campaign(ctx, quick=True, model=True, route_skip=(0x16,)):
             continue
         F = info["frames"]
         modes = ["r"]
-        if f.granular and rng.random() < (0.25 if quick else 0.6):
+        # PAF/PCM_24 and SDS in rw mode are the class of KF-C18-CALC-RDWR-BLOCK: always covered, so that the verdict does not depend on the seed
+        if rw_block(f) or (f.granular and rng.random() < (0.25 if quick else 0.6)):
             modes.append("rw")
         for mode in modes:
             t, meta = calc_test_script(rng, f, ch, F, info["filehex"], mode)
@@ -986,9 +999,12 @@ def calc_campaign(ctx, quick=True, model=True, route_skip=(0x16,)):
                 stats["rw_stream_formats"].append(name)
                 continue
             kind = "crash" if cat == "crash" else "truth"
-            findings.append(Finding(kind, name, "%s ch=%d frames=%d: " % (f.name, ch, F) + "; ".join(texts[:4]), t, cat=cat))
+            kf = KF_CALC_RW if (meta["mode"] == "rw" and rw_block(f) and cat.endswith("-rwseek")) else None
+            findings.append(Finding(kind, name, "%s ch=%d frames=%d: " % (f.name, ch, F) + "; ".join(texts[:4]), t, kf=kf, cat=cat))
             stats["finding:" + cat] += 1
-        if results and model:
+        if results and model and meta["mode"] == "rw" and rw_block(f):
+            stats["model_skipped_rw_block"] += 1      # the scan does not start at frame 0 there (KF-C18-CALC-RDWR-BLOCK): no stream to hand to the model
+        elif results and model:
             for norm in (0, 1):
                 mjobs.append((ch, info["ref"][norm]))
                 mwho.append((name, norm, results, t, f, ch, F))
